@@ -115,12 +115,15 @@ class Built:
                 tot = p.total
             self.objs.append(o)
             self.totals.append(tot)
-            # result ids: by distinct value, in order of first appearance
-            ids, table = [], {}
+            # result ids: by distinct value, in order of first appearance; a pool presents every
+            # distinct (selected) roll ONCE, with the sum of the counts rolls_with_counts gives it
+            # (one branch, one probability — fix 182eee3)
+            table, agg = {}, {}
             for v, c in pres:
                 if v not in table:
                     table[v] = len(table)
-                ids.append((table[v], c))
+                agg[table[v]] = agg.get(table[v], 0) + c
+            ids = list(agg.items())
             self.presented.append((ids, table))
         self.stack = []
         self.raised = []
@@ -477,8 +480,63 @@ def fmt_dist(d):
     return "ok " + " ".join("%d:%d" % oc for oc in items) + " total=%d" % sum(c for _, c in items)
 
 
+def spec_presented(src):
+    """what a pool source must present, from first principles: every ascending-sorted roll of the
+    Cartesian product (after the selection, in the order given) with its exact count"""
+    import itertools
+
+    dice = [C.dec_items(h) for h in src["dice"]]
+    dice = [d for d in dice if sum(c for _, c in d)]
+    # merge repeated outcomes of a die as the constructor does
+    merged = []
+    for d in dice:
+        agg = {}
+        for o, c in d:
+            agg[o] = agg.get(o, 0) + c
+        merged.append(list(agg.items()))
+    n = len(merged)
+    size = 1
+    for d in merged:
+        size *= len(d)
+    if size > 20000:
+        return None
+    which = src.get("which")
+    # PWithSelection(p, ()) passes no identifiers: rolls_with_counts() without arguments = whole rolls
+    idxs = list(range(n)) if not which else gen.resolve_which(n, which)
+    out = {}
+    if n == 0 or (which and not idxs):
+        return out
+    for combo in itertools.product(*merged):
+        cnt = 1
+        for _, k in combo:
+            cnt *= k
+        if not cnt:
+            continue
+        srt = sorted(o for o, _ in combo)
+        key = tuple(srt[j] for j in idxs)
+        out[key] = out.get(key, 0) + cnt
+    return out
+
+
 def run_reference(case):
     b = Built(case)
+    # pool sources must present exactly the rolls of the Cartesian product (C06: "present each
+    # ascending-sorted roll (after any selection) weighted by its exact count")
+    for si, src in enumerate(case["sources"]):
+        if src["t"] == "p":
+            try:
+                want = spec_presented(src)
+            except IndexError:
+                want = None
+            if want is not None:
+                ids, table = b.presented[si]
+                inv = {i: v for v, i in table.items()}
+                got = {}
+                for i, c in ids:
+                    if c:
+                        got[tuple(inv[i])] = got.get(tuple(inv[i]), 0) + c
+                if got != want:
+                    return "pool-source-%d-presents-%r-instead-of-%r" % (si, sorted(got.items())[:6], sorted(want.items())[:6])
     ref = Reference(case, b)
     outs = []
     for fi, sli, lim in case["calls"]:
